@@ -99,10 +99,11 @@ def run(ctx):
   ctx.expect("R-C12-DEFINED", 55, "functions of the statistical test modules")
   rule_range(ctx)
   rule_block(ctx)
+  rule_universal_params(ctx)
   ctx.expect("R-C12-BITS", 2, "entry count + digit mapping")
   ctx.expect("R-C12-UNIVERSAL", 2, "statistic + p-value")
   ctx.expect("R-C12-TEMPLATE", 3, "border test, default set, validation")
-  ctx.expect("R-C12-LADDER", 4, "loop condition, guard agreement, matrix shape, block-frequency ladder")
+  ctx.expect("R-C12-LADDER", 5, "loop condition, guard agreement, matrix shape, block-frequency ladder, Universal's L by n")
   ctx.expect("R-C12-PURE", 56, "every function of the five modules behind the statistical tests")
   ctx.expect("R-C12-FORMULA", 22, "statistic formulas of ten tests, compared at their sinks")
   ctx.expect("R-C12-TABLES", 60, "17 longest-run + 6 + 33 rank + universal + 11 min_n + 14 linear complexity + 3 excursions")
@@ -2000,6 +2001,67 @@ def rule_range(ctx):
       else:
         ctx.violation(R, f.where, con, "assembled by floating-point arithmetic with enclosure [%g, %g] and not clamped: truncation of the series and rounding can take it outside [0, 1] (%s)" % (lo, hi, repr(v)[:100]))
   ctx.note("R-C12-RANGE followed %d functions from the registry" % nfun)
+
+
+# ------------------------------------------------------------------ UNIVERSAL parameters (L by n, Q = 10 * 2^L)
+def rule_universal_params(ctx):
+  """NIST 2.9.7 gives L by n: n >= 387,840 -> L = 6, n >= 904,960 -> L = 7, ... - the row that applies is the last one n reaches (the reference
+  implementation tests the bounds in ascending order and lets the last hit win; the worked example 2.9.8 has n = 10^6, L = 7, Q = 1280), and Q = 10 * 2^L.
+  The terms handed to UniversalImpl are evaluated at every bound of the table (bound - 1, bound, bound + 1) and far above the last one."""
+  R = "R-C12-LADDER"
+  from pcstatic import termeval
+  repo = ctx.repo
+  f = repo.func(MOD, "Universal")
+  w = sym.Walker(repo, f)
+  w.run()
+  calls = [e for e in w.events if e.kind == "call" and str(e.data["name"]).endswith(":UniversalImpl") and len(e.data["args"]) >= 4]
+  if not calls:
+    ctx.incomplete(R, f.where, "Universal: L by n", "no call of UniversalImpl with (bits, n, block size, q)")
+    return
+  mn = local_assign(f, "min_n")
+  tab = fold.try_fold(mn[0].value) if len(mn) == 1 and isinstance(mn[0].value, ast.Dict) else None
+  if not isinstance(tab, dict) or not tab:
+    ctx.incomplete(R, f.where, "Universal: L by n", "min_n is not a literal dict")
+    return
+  n = P("param", f.params()[1])
+  bounds = sorted(tab.values())
+  samples = sorted({b + d for b in bounds for d in (-1, 0, 1)} | {bounds[-1] * 4, (bounds[0] + bounds[1]) // 2})
+  probs, und = [], []
+  n_eval = 0
+  for e in calls:
+    for nv in samples:
+      env = {n.as_atom(): nv}
+      try:
+        if not all(termeval.cond(fc, env) for fc in e.facts if fc[0] in ("cmp", "truthy", "falsy", "not", "and", "or")):
+          continue                                  # the call is not reached with this n (insufficient data, another branch)
+      except (termeval.Unknown, termeval.Raises):
+        pass
+      want = max(L for L, b in tab.items() if b <= nv) if nv >= bounds[0] else None
+      if want is None:
+        probs.append("UniversalImpl is reached with n = %d, below the smallest admissible size %d" % (nv, bounds[0]))
+        continue
+      try:
+        L = termeval.ev(as_poly(e.data["args"][2]), env)
+        q = termeval.ev(as_poly(e.data["args"][3]), env)
+      except termeval.Unknown as u:
+        und.append(str(u))
+        break
+      except termeval.Raises as u:
+        n_eval += 1
+        if len(probs) < 3:
+          probs.append("with n = %d (SP 800-22 2.9.7: L = %d) the selection has no value: %s" % (nv, want, u))
+        continue
+      n_eval += 1
+      if L != want and len(probs) < 3:
+        probs.append("with n = %d the block size is L = %r; SP 800-22 2.9.7 assigns L = %d (the last row of the table with bound <= n: %d <= n%s)" % (
+            nv, L, want, tab[want], " < %d" % tab[want + 1] if want + 1 in tab else ""))
+      elif L == want and q != 10 * 2 ** want and len(probs) < 3:
+        probs.append("with n = %d (L = %d) the initialisation segment is Q = %r blocks, not 10 * 2^L = %d" % (nv, want, q, 10 * 2 ** want))
+  if und and not probs:
+    ctx.incomplete(R, f.where, "Universal: L by n", "the block size / q handed to UniversalImpl cannot be evaluated as a term over n (%s)" % und[0])
+    return
+  ctx.record(R, f.where, "Universal: L = last table row with bound <= n, Q = 10 * 2^L", not probs, "; ".join(probs) or
+             "evaluated at %d sizes around the %d bounds: the largest admissible L and Q = 10 * 2^L everywhere" % (n_eval, len(bounds)))
 
 
 # ------------------------------------------------------------------ BLOCK (block size of the frequency-within-block test)
